@@ -239,6 +239,11 @@ def _terminates(body) -> bool:
     return bool(body) and isinstance(body[-1], (ast.Return, ast.Continue, ast.Break, ast.Raise))
 
 
+def _canon_all(tree: ast.Module) -> ast.Module:
+    from .canon import canon
+    return canon(tree, statements=False)
+
+
 def _canon_control(tree: ast.Module) -> ast.Module:
     """two spellings of the same control flow are reduced to one, so that no rule depends on which was written:
       if not C: B else: A            ->  if C: A else: B          (B not an elif chain)
@@ -303,7 +308,7 @@ class Program:
                     src = self.overrides[rel] if rel in self.overrides else open(path, encoding="utf-8").read()
                     with warnings.catch_warnings():
                         warnings.simplefilter('ignore')
-                        tree = _canon_control(_strip_inert(ast.parse(src, filename=path)))
+                        tree = _canon_control(_canon_all(_strip_inert(ast.parse(src, filename=path))))
                 except (SyntaxError, UnicodeDecodeError, OSError) as e:
                     raise AnalysisError(f"cannot parse {rel}: {e}")
                 h.update(rel.encode())
